@@ -105,6 +105,9 @@ impl Prop for C15 {
     fn watchdog(&self) -> Option<Duration> {
         Some(Duration::from_secs(150))
     }
+    fn hang_is_violation(&self) -> bool {
+        true
+    }
     fn max_shrink_iters(&self) -> u32 {
         150
     }
